@@ -21,7 +21,7 @@
       value-less node) since the last clear / remove_children(zero-length prefix) / collect
       ([C04_drift_step], [C04_drift_reset], [C04_clear_resyncs]). *)
 From Coq Require Import List NArith ZArith Bool Lia.
-From PT Require Import Slots Lookup2 History HistoryExtra EntryApi InstEntry.
+From PT Require Import Slots Lookup2 History HistoryExtra EntryApi InstEntry Arena ArenaProps.
 From PT.Properties Require Import Common.
 Import ListNotations.
 
@@ -146,6 +146,13 @@ Proof.
   split; [exact (cinv_len pfx V _ Hc') | exact (cinv_is_empty pfx V _ Hc')].
 Qed.
 
+(** * The same statement about the ARENA-level transcription of the code (Arena*.v; ArenaProps.v
+      composes the refinement [Rep] with the tree-level theorem). *)
+Theorem C04_arena (Hw : (1 <= w)%N) (am : Arena.amap pfx V) (es : list (pfx * V)) :
+  areach_in pfx V (peq w) (contains w fl) (is_bit_set w) plen (lcp w fl) pzero (okp w) (counts2 pfx V) am -> Arena.a_entries pfx V am = Arena.Ok es ->
+  Arena.acount am = Z.of_nat (length es).
+Proof. exact (arena_C04_count pfx V _ _ _ _ _ _ _ _ _ (laws w fl Hw) am es). Qed.
+
 End C04.
 
 Theorem C04_entry_reuse_refuted :
@@ -226,3 +233,4 @@ Print Assumptions C04_sets.
 Print Assumptions C04_view_refuted.
 Print Assumptions C04_entry_chain.
 Print Assumptions C04_entry_reuse_refuted.
+Print Assumptions C04_arena.
